@@ -1,1 +1,83 @@
-From TM Require Import Base.Prelude C14.Model C13.Model C13.Spec C13.Proofs.
+(* C13 - property theorems only.  Each is closed by [exact] of a lemma from Proofs.v. *)
+From TM Require Import Base.Prelude C14.Model C14.Spec C14.Proofs C13.Model C13.Spec C13.Proofs.
+Open Scope Z_scope.
+
+(* for ALL initial contents of the per-thread scratch arrays (numpy.empty garbage, or whatever longer
+   and shorter queries processed earlier by the same thread left there) the result rows are equal *)
+Theorem c13_scratch_independent : forall t d q, WF (mkcall t d q) ->
+  forall s1 s2, snd (run_query t d q s1) = snd (run_query t d q s2).
+Proof. exact scratch_independent. Qed.
+Print Assumptions c13_scratch_independent.
+
+(* ... nor do they depend on the dimensions the scratch was allocated with (Q_max of the co-processed
+   queries, n_cache) *)
+Theorem c13_dims_independent : forall t q d1 d2, WF (mkcall t d1 q) -> WF (mkcall t d2 q) ->
+  forall s1 s2, snd (run_query t d1 q s1) = snd (run_query t d2 q s2).
+Proof. exact dims_independent. Qed.
+Print Assumptions c13_dims_independent.
+
+(* for every assignment of loop iterations to threads, every execution order and every initial
+   scratch, the result array equals  map F queries  with F a function of the query alone.
+   PARTIAL w.r.t. the property text: iterations are atomic in the model; the real numba scheduler and
+   data races inside an iteration are outside any Gallina model (observed by running 1..16 threads) *)
+Theorem c13_schedule_independent_partial :
+  forall sorter t d nn qs, (forall q, In q qs -> WF (mkcall t d q)) ->
+  forall sched scr,
+    (forall ev, In ev sched -> (fst ev < length qs)%nat) ->
+    (forall i, (i < length qs)%nat -> In i (map fst sched)) ->
+    tomtom_out sorter t d nn qs sched scr = map (fun q => Some (Fq sorter t d nn q)) qs.
+Proof. exact schedule_independent. Qed.
+Print Assumptions c13_schedule_independent_partial.
+
+(* subsets, permutations and duplications of the query list commute with the result *)
+Theorem c13_coprocessing_independent_partial :
+  forall sorter t nn (pool : list qdata) (idxs : list nat) (d1 d2 : dims) sched scr,
+  (forall q, In q pool -> WF (mkcall t d1 q) /\ WF (mkcall t d2 q)) ->
+  (forall i, In i idxs -> (i < length pool)%nat) ->
+  let qs := map (fun i => nth i pool dflt_q) idxs in
+  (forall ev, In ev sched -> (fst ev < length qs)%nat) ->
+  (forall k, (k < length qs)%nat -> In k (map fst sched)) ->
+  tomtom_out sorter t d2 nn qs sched scr = map (fun i => Some (Fq sorter t d1 nn (nth i pool dflt_q))) idxs.
+Proof. exact coprocessing_independent. Qed.
+Print Assumptions c13_coprocessing_independent_partial.
+
+(* n_nearest: for every sorting permutation argsort may return, the output is the n smallest p-values
+   of the full row, ascending, with their fields and indices (ties may resolve either way) *)
+Theorem c13_n_nearest : forall (rows : list rrow) (perm : list nat) (n : nat),
+  let key := fun i => nth i (map r_p rows) (0, 1) in
+  (forall r, In r rows -> 0 < snd (r_p r)) ->
+  sorting_perm key (length rows) perm -> (n <= length rows)%nat ->
+  let out := gather rows (firstn n perm) in
+  length out = n /\
+  (forall ri, In ri out -> (snd ri < length rows)%nat /\ fst ri = nth (snd ri) rows dflt_rrow) /\
+  Sorted.StronglySorted (fun a b => ple (r_p (fst a)) (r_p (fst b)) = true) out /\
+  NoDup (map snd out) /\
+  (forall t ri, (t < length rows)%nat -> ~ In t (map snd out) -> In ri out ->
+                ple (r_p (fst ri)) (r_p (nth t rows dflt_rrow)) = true).
+Proof. exact n_nearest_spec. Qed.
+Print Assumptions c13_n_nearest.
+
+(* the decidable relation evaluated on the implementation's outcomes: the table-driven model
+   (reference rows + stable argsort) satisfies it for every call *)
+Theorem c13_spec : forall c, C13.Spec.spec_ok c (C13.Spec.model c) = true.
+Proof. exact model_spec_ok13. Qed.
+Print Assumptions c13_spec.
+
+(* hypotheses are satisfiable: a well-formed query (one column, similarities 4,0,3,4,4,0, the two
+   zero-similarity columns forming one target of length 2) *)
+Definition w16_t : tdata := mktd 5 [1; 1; 1; 1; 1; 1] [2; 1; 1; 1; 1]%nat [1; 5; 0; 2; 3; 4]%nat false.
+Definition w16_q : qdata := mkqd 1 3 [[4]; [0]; [3]; [4]; [4]; [0]].
+Definition w16_d : dims := mkdims 6 20.
+Example w16_wf : C14.Spec.wf (mkcall w16_t w16_d w16_q) = true.
+Proof. vm_compute. reflexivity. Qed.
+
+(* #16 (fixed by a3f2523): before the repair (score-1 as an unsigned index, results[i,2:4] not
+   initialised) two scratch contents give different result rows for this query *)
+Definition v0_p0 : ver := mkver true false false.
+Lemma scratch_dependent_v0_refuted : exists t d q s1 s2,
+  C14.Spec.wf (mkcall t d q) = true /\
+  map r_off (snd (run_query_ver v0_p0 t d q s1)) <> map r_off (snd (run_query_ver v0_p0 t d q s2)).
+Proof.
+  exists w16_t, w16_d, w16_q, (poison_scratch 12345 160), (poison_scratch 0 160).
+  split; [vm_compute; reflexivity|]. vm_compute. discriminate.
+Qed.
